@@ -5,9 +5,10 @@ import os, sys, json
 HERE = os.path.dirname(os.path.dirname(os.path.abspath(__file__)))
 k = json.load(open(os.path.join(HERE, "known_findings.json")))
 drop = {}
-for pid in sys.argv[1:]:
+ALL = "--all" in sys.argv     # also drop entries whose example still fails, but under another (listed) signature
+for pid in [a for a in sys.argv[1:] if a != "--all"]:
     ev = json.load(open(os.path.join(HERE, "evidence", pid + ".json")))
-    drop[pid] = set(json.dumps(r["sig"]) for r in ev["coverage"].get("known_findings_resolved", []) if r.get("now") is None)
+    drop[pid] = set(json.dumps(r["sig"]) for r in ev["coverage"].get("known_findings_resolved", []) if ALL or r.get("now") is None)
 out, n = [], 0
 for e in k["findings"]:
     if e.get("status", "open") == "open" and json.dumps(e["sig"]) in drop.get(e["property"], ()):
